@@ -336,6 +336,7 @@ pub fn exec(s: &mut CrdtSession, toks: &[&str], enc: TextEncoding) -> Vec<String
     match toks[0] {
         // crdt.rt.mark r obj start end expand name value   |   crdt.rt.unmark r obj start end expand name
         "crdt.rt.mark" | "crdt.rt.unmark" => {
+            s.marked_texts.insert(toks[2].to_string());
             let d = s.replicas.get_mut(toks[1]).unwrap();
             let obj = parse_exid(toks[2]);
             let (start, end): (usize, usize) = (toks[3].parse().unwrap(), toks[4].parse().unwrap());
